@@ -13,7 +13,6 @@ use serde_json::json;
 use servlin::internal::{HttpError, WriteState};
 use servlin::{HttpConn, Response};
 use sim_core::with;
-use std::io::ErrorKind;
 use std::net::{IpAddr, Ipv4Addr, SocketAddr};
 
 #[derive(Clone, Debug, PartialEq, Eq)]
@@ -60,11 +59,17 @@ fn build_faulty(spec: &RSpec, dir: &RunDir, tag: &str, fault: &BodyFault) -> Res
                 f.set_len(*t as u64).unwrap();
                 gen::count("fault.body_file_truncated");
             }
-            BodyFault::OpenError => with(|w| w.fs.open_faults.push(ErrorKind::PermissionDenied)),
-            BodyFault::ReadErrorAt(off) => with(|w| {
+            BodyFault::OpenError => {
+                let k = gen::file_error_kind();
+                with(|w| w.fs.open_faults.push(k))
+            }
+            BodyFault::ReadErrorAt(off) => {
+                let k = gen::file_error_kind();
+                with(|w| {
                 let idx = w.fs.opened.len();
-                w.fs.read_fail_at.insert(idx, (*off, ErrorKind::Other));
-            }),
+                w.fs.read_fail_at.insert(idx, (*off, k));
+            })
+            }
         }
     }
     r
@@ -114,7 +119,7 @@ fn writer_fault(cfg: &RunCfg) -> Outcome {
     let mut n = 0u64;
     for k in ks {
         let mut w = writer_sched();
-        w.fail_at = Some((k, gen::pick(&[ErrorKind::BrokenPipe, ErrorKind::ConnectionReset, ErrorKind::TimedOut])));
+        w.fail_at = Some((k, gen::write_error_kind()));
         with(|wd| {
             wd.fs.short_io = wd.tape.ratio(1, 2);
         });
@@ -237,7 +242,8 @@ fn conn_level(cfg: &RunCfg) -> Outcome {
             0 => 0,
             _ => gen::below(n as u32 + 1) as u64,
         };
-        with(|w| w.net.conns[id].fail_write_at = Some((k, ErrorKind::BrokenPipe)));
+        let wk = gen::write_error_kind();
+        with(|w| w.net.conns[id].fail_write_at = Some((k, wk)));
         fault_desc = format!("socket write error after {k} bytes");
         build(&spec, &dir, "f")
     } else {
@@ -399,7 +405,7 @@ fn server_level(cfg: &RunCfg) -> Outcome {
     match kind {
         1 => {
             let k = gen::below(full_len as u32 + 1) as u64;
-            cl_fail = Some((k, ErrorKind::BrokenPipe));
+            cl_fail = Some((k, gen::write_error_kind()));
             desc = format!("server-side write error after {k} bytes");
             ops.push(Op::Fin);
         }
